@@ -455,6 +455,27 @@ func genC15(repo string) (string, error) {
 	}
 	fmt.Fprintf(&sb, "\n/-- encoding.Uint32MinWidth -/\ndef uint32MinWidth (value : Nat) : Nat :=\n  %s%s\n", body.String(), def)
 
+	// ---- pkg/bufioutil: the table builder's writer
+	bwfset, bwf, err := ParseFile(repo, "pkg/bufioutil/bufio_writer.go")
+	if err != nil {
+		return "", err
+	}
+	bwc := ConstInts(bwf)
+	wbs, ok := bwc["defaultWriteBufferSize"]
+	if !ok {
+		return "", fmt.Errorf("defaultWriteBufferSize not found in pkg/bufioutil/bufio_writer.go")
+	}
+	fmt.Fprintf(&sb, "\ndef defaultWriteBufferSize : Nat := %d\n", wbs)
+	bww := FindFunc(bwf, "bufioStreamWriter", "Write")
+	if bww == nil {
+		return "", fmt.Errorf("bufioStreamWriter.Write not found")
+	}
+	var bws []string
+	for _, st := range bww.Body.List {
+		bws = append(bws, c15render(bwfset, st))
+	}
+	fmt.Fprintf(&sb, "def bufioStreamWriteStmts : List String := %s\n", LeanStrList(bws))
+
 	// ---- FixedOffsetDecoder.GetBlock / Get / Encoder.Write: statement text
 	ofset, of, err := ParseFile(repo, "pkg/encoding/fixed_offset.go")
 	if err != nil {
